@@ -4,6 +4,7 @@ package vrf
 
 import (
 	"crypto/sha512"
+	"encoding/hex"
 	"math/big"
 
 	"filippo.io/edwards25519"
@@ -80,6 +81,22 @@ func VerifC18Complete(al, tai int) {
 	pk := []byte(sk[32:])
 	H0, ok0 := verifTAI(pk, alpha, 0)
 	H1, ok1 := verifTAI(pk, alpha, 1)
+	if !verifSymbolic() {
+		// native replay: SHA-512 is uninterpreted in the symbolic run, so the reported seed need not
+		// satisfy the counter bound for the real hash; take the first neighbouring seed that does
+		for a := 1; a < 256 && !ok0; a++ {
+			seed[31] ^= byte(a)
+			sk = NewKeyFromSeed(seed)
+			pk = []byte(sk[32:])
+			if H0, ok0 = verifTAI(pk, alpha, 0); !ok0 {
+				seed[31] ^= byte(a)
+			}
+		}
+		sk = NewKeyFromSeed(seed)
+		pk = []byte(sk[32:])
+		H0, ok0 = verifTAI(pk, alpha, 0)
+		H1, ok1 = verifTAI(pk, alpha, 1)
+	}
 	if tai == 0 {
 		verifAssume(ok0)
 	} else {
@@ -151,7 +168,30 @@ func VerifC18Gates(n int) {
 	pk := verifBytes("pk", 32)
 	alpha := verifBytes("alpha", 1)
 	pi := verifBytes("pi", n)
+	if !verifSymbolic() && verifVariant() == 1 && n >= 32 {
+		// native replay, second attempt: point decoding is uninterpreted in the symbolic run; make the
+		// Gamma field and the key real points derived from the reported bytes
+		hg := sha512.Sum512(pi[:32])
+		sg, _ := edwards25519.NewScalar().SetUniformBytes(hg[:])
+		copy(pi[:32], new(edwards25519.Point).ScalarBaseMult(sg).Bytes())
+		hk := sha512.Sum512(pk)
+		sk, _ := edwards25519.NewScalar().SetUniformBytes(hk[:])
+		copy(pk, new(edwards25519.Point).ScalarBaseMult(sk).Bytes())
+	}
+	if !verifSymbolic() {
+		verifBankSmallOrder(alpha)
+	}
 	_, ok0 := verifTAI(pk, alpha, 0)
+	if !verifSymbolic() {
+		// native replay: SHA-512 is uninterpreted in the symbolic run, so the reported alpha need not
+		// satisfy the counter bound for the real hash; take the first neighbouring alpha that does
+		for a := 0; a < 256 && !ok0; a++ {
+			alpha[0] ^= byte(a)
+			if _, ok0 = verifTAI(pk, alpha, 0); !ok0 {
+				alpha[0] ^= byte(a)
+			}
+		}
+	}
 	verifAssume(ok0) // bound on the try-and-increment counter (an assumption on the hash value)
 	okV, beta := Verify(pk, alpha, pi)
 	if !okV {
@@ -188,3 +228,54 @@ func VerifC18Gates(n int) {
 }
 
 var verifL, _ = new(big.Int).SetString("7237005577332262213973186563042994240857116359379907606001950938285454250989", 10)
+
+// verifBankSmallOrder (native replays only): the class "small-order key accepted" of the algebraic
+// model made concrete. For each of the eight small-order points Y (multiples of an order-8 point) a
+// proof is ground as anyone could without a secret key: Gamma = identity, U = k*B, V = k*H, and k is
+// increased until the RFC 9381 challenge c is a multiple of the order of Y, so that s = k satisfies
+// the verification equation. Verify has to refuse every one of them.
+func verifBankSmallOrder(alpha []byte) {
+	tb, _ := hex.DecodeString("26e8958fc2b227b045c3f489f2ef98f0d5dfac05d3c63339b13802886d53fc05")
+	T, err := new(edwards25519.Point).SetBytes(tb)
+	if err != nil {
+		return
+	}
+	id := edwards25519.NewIdentityPoint()
+	Y := edwards25519.NewIdentityPoint()
+	for j := 0; j < 8; j++ {
+		if j > 0 {
+			Y = new(edwards25519.Point).Add(Y, T)
+		}
+		yb := Y.Bytes()
+		var H *edwards25519.Point
+		for ctr := 0; ctr < 256 && H == nil; ctr++ {
+			if c, ok := verifTAI(yb, alpha, byte(ctr)); ok {
+				H = c
+			}
+		}
+		if H == nil {
+			continue
+		}
+		for kk := 1; kk <= 200; kk++ {
+			kb := make([]byte, 32)
+			kb[0], kb[1] = byte(kk), byte(kk>>8)
+			k, _ := edwards25519.NewScalar().SetCanonicalBytes(kb)
+			ch := sha512.New()
+			ch.Write([]byte{0x03, 0x02})
+			ch.Write(yb)
+			ch.Write(H.Bytes())
+			ch.Write(id.Bytes())
+			ch.Write(new(edwards25519.Point).ScalarBaseMult(k).Bytes())
+			ch.Write(new(edwards25519.Point).ScalarMult(k, H).Bytes())
+			ch.Write([]byte{0x00})
+			cs := ch.Sum(nil)[:16]
+			if cs[0]&7 != 0 {
+				continue
+			}
+			pi := append(append(append([]byte{}, id.Bytes()...), cs...), kb...)
+			okV, _ := Verify(yb, alpha, pi)
+			verifAssert("bank.small.order.key.refused", !okV)
+			break
+		}
+	}
+}
